@@ -3,7 +3,9 @@
 
 translate(repo_root) reads /repo's CURRENT deepdiff/diff.py (and four names of deepdiff/helper.py), walks the
 `ast` of the methods listed in FUNCS with an explicit white-list of node shapes and emits one Gallina
-definition `g_<method>` per method, statement by statement, over the Python-level primitives of
+definition `g_<method>` per method (15 methods: the dispatcher, the leaf comparers, _diff_dict, and the sequence
+comparers _diff_iterable_in_order / _diff_by_forming_pairs_and_comparing_one_by_one / _get_matching_pairs /
+_compare_in_order / _diff_ordered_iterable_by_difflib), statement by statement, over the Python-level primitives of
 coq/theories/Diff/DiffSrcPrims.v (levels, branch_deeper, isinstance, SetOrdered algebra, the item-hash table,
 ...).  None of the functions of Diff/DiffModel.v that are re-derived here is used.  Anything outside the
 white-list raises Unsupported(file:line: what).  No eval, no import of deepdiff.
@@ -44,8 +46,16 @@ RULES (each is part of the trusted base of this tie; listed in coq/theories/Diff
      '\\n'.join(diff); level.additional['diff'] = ..; try/except of `.decode('ascii')` and of `._asdict`.
  H   helper.py: strings = (str, bytes), bytes_type = bytes, booleans = (bool, np_bool_), numbers contains
      int and float (only_numbers) - checked textually.
- N   NOT TRANSLATED: _diff_iterable_in_order and below (difflib replay, pairwise pass): the call is the
-     primitive `hand_iterable_in_order` (= the hand model); tied by correspondence only.
+ S4  `opcodes_with_values` (the Opcode objects with the old / new values) is an opaque local: its `.append(..)` statements
+     are skipped, `return opcodes_with_values` returns nothing, and `self._iterable_opcodes[level.path(force=FORCE_DEFAULT)] = ..`
+     records the level's path (what DiffModel records).  A call `x = self.<comparer>(.., local_tree=T)` adds the comparer's
+     output to the local TreeResult T (`TreeResult()` = nil_res); `for report_type, levels in T.items(): if levels:
+     self.tree[report_type] |= levels` (fixed shape) adds T to the output.
+ T2  fixed shapes of the sequence methods: `[((e1, e2), (x, y)) for i, (x, y) in enumerate(zip_longest(a, b,
+     fillvalue=ListItemRemovedOrAdded))]`; `difflib.SequenceMatcher(isjunk=None, a=level.t1, b=level.t2, autojunk=False)` +
+     `.get_opcodes()` (the oracle `ops` at the level's path); loops `for (i, j), (x, y) in <pairs>`, `for index, x in
+     enumerate(seq[a:b])`, `for tag, i1, i2, j1, j2 in opcodes`; index parameters are `option nat` (`x is None`, `i + x`).
+     self._iterables_subscriptable / self._all_values_basic_hashable are primitives (not translated).
 """
 import ast
 import os
@@ -103,7 +113,9 @@ OUTSIDE_COMPARERS = {"_diff_datetime", "_diff_ipranges", "_diff_time", "_diff_uu
                      "_diff_enum", "_diff_iterable_with_deephash"}
 COQTY = {"level": "level", "obj": "obj", "atom": "atom", "nat": "nat", "bool": "bool", "kind": "rkind",
          "atoms": "list atom", "paths": "list path", "ht": "list (pystr * atom)", "hashes": "list pystr",
-         "hash": "pystr", "tree": "res", "relclass": "relclass", "pystr": "pystr", "lines": "pystr", "ty": "ty"}
+         "hash": "pystr", "tree": "res", "relclass": "relclass", "pystr": "pystr", "lines": "pystr", "ty": "ty",
+         "onat": "option nat", "items": "list obj", "pairs": "list ((nat * nat) * (obj * obj))", "opcodes": "list opcode",
+         "optag": "optag"}
 DROPPED_PARAMS = {"parents_ids", "_original_type", "local_tree"}
 
 # method -> (parameters after self: (name, default source text or None, kind)), kind: a COQTY key, "drop", or ("fixed", value)
@@ -114,6 +126,19 @@ FUNCS = {
     "_diff_types": [("level", None, "level"), ("local_tree", "None", "drop")],
     "_diff_str": [("level", None, "level"), ("local_tree", "None", "drop")],
     "_diff_set": [("level", None, "level"), ("local_tree", "None", "drop")],
+    "_compare_in_order": [("level", None, "level"), ("t1_from_index", "None", "onat"), ("t1_to_index", "None", "onat"),
+                          ("t2_from_index", "None", "onat"), ("t2_to_index", "None", "onat")],
+    "_get_matching_pairs": [("level", None, "level"), ("t1_from_index", "None", "onat"), ("t1_to_index", "None", "onat"),
+                            ("t2_from_index", "None", "onat"), ("t2_to_index", "None", "onat")],
+    "_diff_by_forming_pairs_and_comparing_one_by_one": [
+        ("level", None, "level"), ("local_tree", None, "drop"), ("parents_ids", "frozenset()", "drop"), ("_original_type", "None", "drop"),
+        ("child_relationship_class", "None", "relclass"), ("t1_from_index", "None", "onat"), ("t1_to_index", "None", "onat"),
+        ("t2_from_index", "None", "onat"), ("t2_to_index", "None", "onat")],
+    "_diff_ordered_iterable_by_difflib": [
+        ("level", None, "level"), ("local_tree", None, "drop"), ("parents_ids", "frozenset()", "drop"), ("_original_type", "None", "drop"),
+        ("child_relationship_class", "None", "relclass")],
+    "_diff_iterable_in_order": [("level", None, "level"), ("parents_ids", "frozenset()", "drop"), ("_original_type", "None", "drop"),
+                                ("local_tree", "None", "drop")],
     "_diff_iterable": [("level", None, "level"), ("parents_ids", "frozenset()", "drop"), ("_original_type", "None", "drop"),
                        ("local_tree", "None", "drop")],
     "_diff_tuple": [("level", None, "level"), ("parents_ids", None, "drop"), ("local_tree", "None", "drop")],
@@ -123,9 +148,13 @@ FUNCS = {
     "_diff": [("level", None, "level"), ("parents_ids", "frozenset()", "drop"), ("_original_type", "None", "drop"),
               ("local_tree", "None", "drop")],
 }
-ORDER = ["_report_result", "_diff_booleans", "_diff_numbers", "_diff_types", "_diff_str", "_diff_set", "_diff_iterable",
-         "_diff_tuple", "_diff_dict", "_diff"]
-USES_REC = {"_diff_dict", "_diff_iterable", "_diff_tuple", "_diff"}       # checked: exactly the methods whose text mentions rec
+ORDER = ["_report_result", "_diff_booleans", "_diff_numbers", "_diff_types", "_diff_str", "_diff_set", "_compare_in_order",
+         "_get_matching_pairs", "_diff_by_forming_pairs_and_comparing_one_by_one", "_diff_ordered_iterable_by_difflib",
+         "_diff_iterable_in_order", "_diff_iterable", "_diff_tuple", "_diff_dict", "_diff"]
+USES_REC = {"_diff_dict", "_diff_iterable", "_diff_tuple", "_diff", "_diff_by_forming_pairs_and_comparing_one_by_one",
+            "_diff_ordered_iterable_by_difflib", "_diff_iterable_in_order"}
+RETURNS = {"_compare_in_order": "pairs", "_get_matching_pairs": "pairs"}          # value-returning methods (others return res)
+OPTAGS = {"equal": "OEqual", "replace": "OReplace", "delete": "ODelete", "insert": "OInsert"}       # checked: exactly the methods whose text mentions rec
 
 T_UNION = ("SetComp(elt=JoinedStr(values=[FormattedValue(value=Call(func=Attribute(value=Name(id='level', ctx=Load()), attr='path', "
            "ctx=Load()), args=[], keywords=[]), conversion=-1), Constant(value='['), FormattedValue(value=Call(func=Name(id='repr', "
@@ -156,6 +185,7 @@ class Fn:
         self.selfname = None
         self.uses_rec = False
         self.ntmp = 0
+        self.ret = RETURNS.get(name)
 
     # ---------------------------------------------------------------- signature
     def signature(self):
@@ -249,6 +279,24 @@ class Fn:
             return "(oa %s)" % t
         bad(node, "a %s where an object is expected" % ty)
 
+    def as_onat(self, x, node):
+        if isinstance(x, K) and x.v is None:
+            return "None"
+        t, ty = self.term(x, node)
+        if ty == "onat":
+            return t
+        if ty == "nat":
+            return "(Some %s)" % t
+        bad(node, "a %s where an index or None is expected" % ty)
+
+    def as_items(self, x, node):
+        t, ty = self.term(x, node)
+        if ty == "items":
+            return t
+        if ty == "obj":
+            return "(iter_items %s)" % t
+        bad(node, "iteration over a %s as a sequence" % ty)
+
     def as_param(self, x, node):
         t, ty = self.term(x, node)
         if ty == "atom":
@@ -326,12 +374,20 @@ class Fn:
                 return ("(hashes_sub %s %s)" % (a[0], b[0]), "hashes")
             if (a[1], b[1]) == ("nat", "nat") and op is ast.Add:
                 return ("(%s + %s)" % (a[0], b[0]), "nat")
+            if (a[1], b[1]) == ("nat", "onat") and op is ast.Add:
+                return ("(%s + oget %s)" % (a[0], b[0]), "nat")
             if (a[1], b[1]) == ("nat", "nat") and op is ast.Div:
                 return ((a[0], b[0]), "quot")
             bad(e, "binary operator %s on %s, %s" % (op.__name__, a[1], b[1]))
         if isinstance(e, ast.Subscript):
             if not isinstance(e.ctx, ast.Load):
                 bad(e, "subscript in store context")
+            if isinstance(e.slice, ast.Slice):
+                a = self.term(self.expr(e.value, env), e)
+                if a[1] != "obj" or e.slice.step is not None or e.slice.lower is None or e.slice.upper is None:
+                    bad(e, "slice")
+                lo, hi = (self.as_onat(self.expr(z, env), e) for z in (e.slice.lower, e.slice.upper))
+                return ("(py_slice %s %s %s)" % (a[0], lo, hi), "items")
             a, b = self.term(self.expr(e.value, env), e), self.term(self.expr(e.slice, env), e)
             if (a[1], b[1]) == ("obj", "atom"):
                 return ("(dict_getitem %s %s)" % (a[0], b[0]), "obj")
@@ -359,12 +415,20 @@ class Fn:
         if len(e.ops) != 1:
             bad(e, "chained comparison")
         op, L, R = e.ops[0], e.left, e.comparators[0]
-        a, b = self.expr(L, env), self.expr(R, env)
+        a = self.expr(L, env)
+        b = K("fill") if (isinstance(R, ast.Name) and R.id == "ListItemRemovedOrAdded") else self.expr(R, env)
         neg = isinstance(op, (ast.NotEq, ast.IsNot, ast.NotIn))
 
         def out(t):
             return ("(negb %s)" % t if neg else t, "bool")
+        if isinstance(op, (ast.Is, ast.IsNot)) and isinstance(R, ast.Name) and R.id == "ListItemRemovedOrAdded":
+            a = self.term(self.expr(L, env), e)
+            if a[1] != "obj":
+                bad(e, "`is ListItemRemovedOrAdded` on a %s" % a[1])
+            return out("(is_fill %s)" % a[0])
         if isinstance(op, (ast.Is, ast.IsNot)):
+            if isinstance(b, K) and b.v is None and not isinstance(a, K) and not isinstance(a, Lit) and a[1] == "onat":
+                return out("(onat_is_None %s)" % a[0])
             if isinstance(b, K) and b.v is None:
                 if isinstance(a, K):
                     return K((a.v is None) != neg)
@@ -376,6 +440,10 @@ class Fn:
             if (a[1], b[1]) != ("obj", "obj"):
                 bad(e, "`is` on %s, %s" % (a[1], b[1]))
             return out("(is_same_object %s %s)" % (a[0], b[0]))
+        if isinstance(op, (ast.Eq, ast.NotEq)) and isinstance(b, Lit) and not isinstance(a, (K, Lit)) and a[1] == "optag":
+            if b.s not in OPTAGS:
+                bad(e, "opcode tag %r" % b.s)
+            return out("(optag_eqb %s %s)" % (a[0], OPTAGS[b.s]))
         if isinstance(op, (ast.Eq, ast.NotEq)):
             a, b = self.term(a, e), self.term(b, e)
             f = {("obj", "obj"): "obj_eq", ("ty", "ty"): "ty_eqb", ("nat", "nat"): "Nat.eqb"}.get((a[1], b[1]))
@@ -410,6 +478,30 @@ class Fn:
         if len(e.generators) != 1:
             bad(e, "list comprehension with several generators")
         g = e.generators[0]
+        if isinstance(g.target, ast.Tuple):                                                   # rule T: pairs by position
+            it = g.iter
+            ok = (not g.ifs and not g.is_async and len(g.target.elts) == 2 and isinstance(g.target.elts[0], ast.Name)
+                  and isinstance(g.target.elts[1], ast.Tuple) and len(g.target.elts[1].elts) == 2
+                  and all(isinstance(z, ast.Name) for z in g.target.elts[1].elts)
+                  and isinstance(it, ast.Call) and dotted(it.func) == "enumerate" and len(it.args) == 1 and not it.keywords
+                  and isinstance(it.args[0], ast.Call) and dotted(it.args[0].func) == "zip_longest" and len(it.args[0].args) == 2
+                  and len(it.args[0].keywords) == 1 and it.args[0].keywords[0].arg == "fillvalue"
+                  and dotted(it.args[0].keywords[0].value) == "ListItemRemovedOrAdded"
+                  and isinstance(e.elt, ast.Tuple) and len(e.elt.elts) == 2 and isinstance(e.elt.elts[0], ast.Tuple) and len(e.elt.elts[0].elts) == 2
+                  and isinstance(e.elt.elts[1], ast.Tuple) and len(e.elt.elts[1].elts) == 2)
+            if not ok:
+                bad(e, "list comprehension with a tuple target that is not the enumerate(zip_longest(..)) template (rule T)")
+            ni, nx, ny = g.target.elts[0].id, g.target.elts[1].elts[0].id, g.target.elts[1].elts[1].id
+            if len({ni, nx, ny}) != 3 or [z.id if isinstance(z, ast.Name) else None for z in e.elt.elts[1].elts] != [nx, ny]:
+                bad(e, "enumerate(zip_longest(..)) template: the element must be ((.., ..), (x, y))")
+            a, b = (self.as_items(self.expr(z, env), e) for z in it.args[0].args)
+            env2 = dict(env)
+            env2[ni], env2[nx], env2[ny] = "nat", "obj", "obj"
+            i1, i2 = (self.term(self.expr(z, env2), e) for z in e.elt.elts[0].elts)
+            if (i1[1], i2[1]) != ("nat", "nat"):
+                bad(e, "index pair of types %s, %s" % (i1[1], i2[1]))
+            return ("(map (fun '(%s, (%s, %s)) => ((%s, %s), (%s, %s))) (enumerate (zip_longest %s %s)))" % (
+                self.var(ni), self.var(nx), self.var(ny), i1[0], i2[0], self.var(nx), self.var(ny), a, b), "pairs")
         if g.is_async or not isinstance(g.target, ast.Name):
             bad(e, "list comprehension target")
         it = self.term(self.expr(g.iter, env), e)
@@ -462,6 +554,18 @@ class Fn:
             if a[1] == "tree":
                 return ("(tree_len %s)" % a[0], "nat")
             bad(e, "len of a %s" % a[1])
+        if d == "TreeResult" and not e.args and not e.keywords:
+            return ("nil_res", "tree")
+        if d == "enumerate" and len(e.args) == 1 and not e.keywords:
+            return ("(enumerate %s)" % self.as_items(self.expr(e.args[0], env), e), "enum_items")
+        if d == "difflib.SequenceMatcher":                                                     # rule T
+            kw = self.kwargs(e, {"isjunk", "a", "b", "autojunk"})
+            ok = (not e.args and set(kw) == {"isjunk", "a", "b", "autojunk"} and isinstance(kw["isjunk"], ast.Constant) and kw["isjunk"].value is None
+                  and isinstance(kw["autojunk"], ast.Constant) and kw["autojunk"].value is False
+                  and ast.unparse(kw["a"]) == "level.t1" and ast.unparse(kw["b"]) == "level.t2" and env.get("level") == "level")
+            if not ok:
+                bad(e, "SequenceMatcher call that is not the template (rule T)")
+            return (self.var("level"), "matcher")
         if d == "SetOrdered" and len(e.args) == 1 and not e.keywords:
             a = self.term(self.expr(e.args[0], env), e)
             if a[1] != "atoms":
@@ -492,6 +596,11 @@ class Fn:
                 if a[1] != "lines":
                     bad(e, "join of a %s" % a[1])
                 return (a[0], "pystr")
+            if f.attr == "get_opcodes" and not e.args and not e.keywords:
+                a = self.term(self.expr(f.value, env), e)
+                if a[1] != "matcher":
+                    bad(e, ".get_opcodes() of a %s" % a[1])
+                return ("(get_opcodes ops %s)" % a[0], "opcodes")
             if f.attr == "keys" and not e.args and not e.keywords:
                 a = self.term(self.expr(f.value, env), e)
                 if a[1] != "ht":
@@ -560,6 +669,14 @@ class Fn:
             if a[1] != "level" or not (isinstance(s, Lit) and s.s in ("t1", "t2")):
                 bad(e, "_create_hashtable")
             return ("(create_hashtable hatom %s %s)" % (a[0], s.s.upper()), "ht")
+        if m == "_iterables_subscriptable" and len(e.args) == 2 and not e.keywords:
+            a, b = (self.as_obj(self.expr(z, env), e) for z in e.args)
+            return ("(iterables_subscriptable %s %s)" % (a, b), "bool")
+        if m == "_all_values_basic_hashable" and len(e.args) == 1 and not e.keywords:
+            return ("(all_values_basic_hashable %s)" % self.as_obj(self.expr(e.args[0], env), e), "bool")
+        if m in RETURNS:
+            t, _tgt = self.fn_call(e, env)
+            return (t, RETURNS[m])
         bad(e, "self.%s(..) as a value" % m)
 
     def res_call(self, e, env):
@@ -569,8 +686,14 @@ class Fn:
         kws = {k.arg: k.value for k in e.keywords}
         lt = kws.get("local_tree")
         if lt is not None:
-            if not (isinstance(lt, ast.Name) and lt.id == "local_tree"):
-                bad(e, "local_tree= something else than the method's own local_tree")
+            if not isinstance(lt, ast.Name):
+                bad(e, "local_tree= something else than a name")
+            if lt.id != "local_tree":
+                if env.get(lt.id) != "tree":
+                    bad(e, "local_tree=%s, which is not a local TreeResult()" % lt.id)
+                target = lt.id
+        if m in RETURNS:
+            bad(e, "call of the value-returning method %s as a statement" % m)
         if m == "_report_result":
             kw = self.kwargs(e, {"local_tree"})
             if len(e.args) != 2:
@@ -592,12 +715,6 @@ class Fn:
             return "(g__report_result E rec %s %s)" % (kt, lv[0]), target
         if m in OUTSIDE_COMPARERS:                                                             # rule O
             return "out_of_universe", target
-        if m == "_diff_iterable_in_order":                                                     # rule N
-            a = self.term(self.expr(e.args[0], env), e) if e.args else bad(e, "arguments")
-            if a[1] != "level":
-                bad(e, "argument")
-            self.uses_rec = True
-            return "(hand_iterable_in_order udiff ops skip c rec %s)" % a[0], target
         if m == "_diff":
             if not e.args:
                 bad(e, "arguments of self._diff")
@@ -611,6 +728,14 @@ class Fn:
             self.uses_rec = True
             return "(rec %s)" % a[0], target
         if m in FUNCS:
+            return self.fn_call(e, env, target)
+        bad(e, "call of self.%s" % m)
+
+    def fn_call(self, e, env, target="r"):
+        """self.<translated method>(...): the application of its generated definition"""
+        m = e.func.attr
+        kws = {k.arg: k.value for k in e.keywords}
+        if True:
             spec = FUNCS[m]
             self.tr.called(m, e)
             slots = {}
@@ -627,6 +752,8 @@ class Fn:
             ts = []
             for (pname, dsrc, kind) in spec:
                 if kind == "drop":
+                    if pname == "local_tree":
+                        continue                                                                 # handled by res_call (the target tree)
                     if pname in slots and not (isinstance(slots[pname], ast.Name) and slots[pname].id in DROPPED_PARAMS | {"parents_ids_added"}):
                         bad(e, "argument %r of %s is not a dropped name (rule S2)" % (pname, m))
                     continue
@@ -637,9 +764,15 @@ class Fn:
                 if pname not in slots:
                     if dsrc is None:
                         bad(e, "missing argument %r of %s" % (pname, m))
+                    if kind == "onat" and dsrc == "None":
+                        ts.append("None")
+                        continue
                     if dsrc not in ("True", "False"):
                         bad(e, "default of %r" % pname)
                     ts.append(dsrc.lower())
+                    continue
+                if kind == "onat":
+                    ts.append(self.as_onat(self.expr(slots[pname], env), e))
                     continue
                 a = self.term(self.expr(slots[pname], env), e)
                 if a[1] != kind:
@@ -670,6 +803,9 @@ class Fn:
             return "S1 report_type field"
         if u == "tree = %s.tree if local_tree is None else local_tree" % self.selfname:
             return "S1 tree"
+        if isinstance(s, ast.Expr) and isinstance(s.value, ast.Call) and isinstance(s.value.func, ast.Attribute) and s.value.func.attr == "append" \
+                and isinstance(s.value.func.value, ast.Name) and s.value.func.value.id == "opcodes_with_values":
+            return "S1 opcodes_with_values (the model records the path only)"
         return None
 
     def has_exit(self, stmts):
@@ -687,6 +823,9 @@ class Fn:
                 continue
             if isinstance(s, (ast.Assign, ast.AugAssign)):
                 tgts = s.targets if isinstance(s, ast.Assign) else [s.target]
+                if isinstance(s, ast.Assign) and self.is_res_call(s.value):
+                    lt = [k.value for k in s.value.keywords if k.arg == "local_tree"]
+                    add(lt[0].id if lt and isinstance(lt[0], ast.Name) and lt[0].id != "local_tree" else "r")
                 for t in tgts:
                     if isinstance(t, ast.Name):
                         add(t.id)
@@ -697,7 +836,10 @@ class Fn:
                     else:
                         bad(t, "assignment target")
             elif isinstance(s, ast.Expr):
-                add("r")
+                lt = [k.value for k in s.value.keywords if k.arg == "local_tree"] if isinstance(s.value, ast.Call) else []
+                add(lt[0].id if lt and isinstance(lt[0], ast.Name) and lt[0].id != "local_tree" else "r")
+            elif isinstance(s, (ast.Continue, ast.Return)):
+                pass
             elif isinstance(s, ast.If):
                 for n in self.assigned(s.body, env) + self.assigned(s.orelse, env):
                     add(n)
@@ -712,6 +854,12 @@ class Fn:
             else:
                 bad(s, "statement")
         return out
+
+    def is_res_call(self, v):
+        return (isinstance(v, ast.Call) and isinstance(v.func, ast.Attribute) and self.is_self(v.func.value)
+                and v.func.attr in FUNCS and v.func.attr not in RETURNS)
+
+    MERGE = "for report_type, levels in %s.items():\n    if levels:\n        %s.tree[report_type] |= levels"
 
     def comment(self, s, what=None):
         try:
@@ -750,10 +898,19 @@ class Fn:
             return [pad + self.comment(s, "skipped, " + sk)] + self.block(rest, env, cont, ind)
         L = [pad + self.comment(s)]
         if isinstance(s, ast.Return):
-            if s.value is not None:
-                bad(s, "return with a value")
             if rest:
                 bad(rest[0], "statement after return")
+            if self.ret is not None:
+                if s.value is None:
+                    bad(s, "bare return in a value-returning method")
+                v = self.term(self.expr(s.value, env), s)
+                if v[1] != self.ret:
+                    bad(s, "return of a %s, expected %s" % (v[1], self.ret))
+                return L + [pad + v[0]]
+            if s.value is not None:
+                if not (isinstance(s.value, ast.Name) and env.get(s.value.id) == "opaque"):
+                    bad(s, "return with a value")
+                L[0] = pad + self.comment(s, "rule S3: the returned opaque value is dropped")
             return L + [pad + "r"]
         if isinstance(s, ast.Continue):
             if rest:
@@ -765,7 +922,8 @@ class Fn:
             f = s.value.func
             if self.is_self(f.value):
                 t, tgt = self.res_call(s.value, env)
-                return L + [pad + "let r := seq r %s in" % t] + self.block(rest, env, cont, ind)
+                tv = "r" if tgt == "r" else self.var(tgt)
+                return L + [pad + "let %s := seq %s %s in" % (tv, tv, t)] + self.block(rest, env, cont, ind)
             if ast.unparse(s) == "tree[report_type].add(change_level)" and env.get("report_type") == "kind" and env.get("change_level") == "level":
                 return L + [pad + "let r := seq r (tree_add %s %s) in" % (self.var("report_type"), self.var("change_level"))] + self.block(rest, env, cont, ind)
             bad(s, "call statement")
@@ -782,6 +940,9 @@ class Fn:
             if isinstance(c, K):                                                                 # rule D
                 live = s.body if c.v else s.orelse
                 L[0] = pad + self.comment(s, "rule D / O: condition is %s" % c.v)
+                if live and isinstance(live[-1], (ast.Return, ast.Continue)) and rest:
+                    L.append(pad + "(* rule D: %d statement(s) after the always-returning live branch are dead *)" % len(rest))
+                    rest = []
                 return L + self.block(list(live) + list(rest), env, cont, ind)
             if self.has_exit(s.body) or self.has_exit(s.orelse):
                 k2 = (lambda env2, ind2: self.block(rest, env2, cont, ind2))
@@ -878,7 +1039,14 @@ class Fn:
 
     def for_(self, s, env, rest, cont, ind):
         pad = "  " * ind
-        if s.orelse or not isinstance(s.target, ast.Name):
+        if isinstance(s.iter, ast.Call) and isinstance(s.iter.func, ast.Attribute) and s.iter.func.attr == "items" and isinstance(s.iter.func.value, ast.Name) \
+                and ast.unparse(s) == self.MERGE % (s.iter.func.value.id, self.selfname) and env.get(s.iter.func.value.id) == "tree":    # rule T
+            return [pad + "let r := seq r %s in" % self.var(s.iter.func.value.id)] + self.block(rest, env, cont, ind)
+        if s.orelse:
+            bad(s, "for-else")
+        if isinstance(s.target, ast.Tuple):
+            return self.for_tuple(s, env, rest, cont, ind)
+        if not isinstance(s.target, ast.Name):
             bad(s, "for statement")
         if isinstance(s.iter, ast.Attribute) and self.is_self(s.iter.value) and s.iter.attr in EMPTY_BY_DEFAULT:     # rule D
             self.tr.need_default(s.iter.attr, s)
@@ -897,6 +1065,49 @@ class Fn:
         env2[s.target.id] = ety
         body = self.block(s.body, env2, (lambda e3, i3: ["  " * i3 + "r"]), ind + 2)
         return ([pad + "let r := seq r (for_each (fun %s : %s =>" % (self.var(s.target.id), COQTY[ety]), pad + "    let r := nil_res in"]
+                + body + [pad + "  ) %s) in" % it[0]] + self.block(rest, env, cont, ind))
+
+    def for_tuple(self, s, env, rest, cont, ind):
+        """for (i, j), (x, y) in <pairs> / for index, x in enumerate(<items>) / for tag, a, b, c, d in <opcodes>"""
+        pad = "  " * ind
+        it = self.term(self.expr(s.iter, env), s)
+        tg = s.target
+        env2 = dict(env)
+        pre = []
+        if it[1] == "pairs":
+            ok = (len(tg.elts) == 2 and all(isinstance(z, ast.Tuple) and len(z.elts) == 2 and all(isinstance(q, ast.Name) for q in z.elts) for z in tg.elts))
+            if not ok:
+                bad(s, "target of a loop over matching pairs")
+            (ni, nj), (nx, ny) = [[q.id for q in z.elts] for z in tg.elts]
+            env2[ni], env2[nj], env2[nx], env2[ny] = "nat", "nat", "obj", "obj"
+            names = [ni, nj, nx, ny]
+            binder = "'((%s, %s), (%s, %s))" % tuple(self.var(n) for n in names)
+        elif it[1] == "enum_items":
+            if not (len(tg.elts) == 2 and all(isinstance(q, ast.Name) for q in tg.elts)):
+                bad(s, "target of a loop over enumerate(..)")
+            ni, nx = [q.id for q in tg.elts]
+            env2[ni], env2[nx] = "nat", "obj"
+            names = [ni, nx]
+            binder = "'(%s, %s)" % (self.var(ni), self.var(nx))
+        elif it[1] == "opcodes":
+            if not (len(tg.elts) == 5 and all(isinstance(q, ast.Name) for q in tg.elts)):
+                bad(s, "target of a loop over opcodes")
+            names = [q.id for q in tg.elts]
+            binder = "o : opcode"
+            for n, (fld, ty) in zip(names, [("otag", "optag"), ("oi1", "nat"), ("oi2", "nat"), ("oj1", "nat"), ("oj2", "nat")]):
+                env2[n] = ty
+                pre.append(pad + "    let %s := %s o in" % (self.var(n), fld))
+        else:
+            bad(s, "for with a tuple target over a %s" % it[1])
+        if len(set(names)) != len(names):
+            bad(s, "duplicate loop variable")
+        if any(isinstance(n, (ast.Return, ast.Break)) for b in s.body if not self.skipped(b) for n in ast.walk(b)):
+            bad(s, "return / break inside a loop")
+        for n in self.assigned(s.body, env):
+            if n != "r" and n not in names and n in env:
+                bad(s, "the loop body assigns the outer local %r" % n)
+        body = self.block(s.body, env2, (lambda e3, i3: ["  " * i3 + "r"]), ind + 2)
+        return ([pad + "let r := seq r (for_each (fun %s =>" % binder] + pre + [pad + "    let r := nil_res in"]
                 + body + [pad + "  ) %s) in" % it[0]] + self.block(rest, env, cont, ind))
 
     def assign(self, s, env):
@@ -918,10 +1129,17 @@ class Fn:
         for t in s.targets:
             if t.id == self.selfname:
                 bad(s, "assignment to self")
+        if self.is_res_call(s.value):                  # x = self.<comparer>(..): the output goes to the target tree, x is opaque
+            t, tgt = self.res_call(s.value, env)
+            tv = "r" if tgt == "r" else self.var(tgt)
+            for tg in s.targets:
+                env[tg.id] = "opaque"
+            return ["let %s := seq %s %s in" % (tv, tv, t), "(* rule S3: opaque local(s) %s *)" % ", ".join(tg.id for tg in s.targets)]
         try:
             x = self.expr(s.value, env)
         except Unsupported:
-            if all(isinstance(n, (ast.Name, ast.Attribute, ast.Constant, ast.IfExp, ast.Load)) for n in ast.walk(s.value)):
+            if all(isinstance(n, (ast.Name, ast.Attribute, ast.Constant, ast.IfExp, ast.Load, ast.List)) for n in ast.walk(s.value)) \
+                    and not any(isinstance(n, ast.List) and n.elts for n in ast.walk(s.value)):
                 for t in s.targets:                                                             # rule S3
                     env[t.id] = "opaque"
                 return ["(* rule S3: opaque local(s) %s *)" % ", ".join(t.id for t in s.targets)]
@@ -939,7 +1157,7 @@ class Fn:
                 for t in s.targets:
                     env[t.id] = "opaque"
                 return ["(* rule S3: opaque local(s) %s *)" % ", ".join(t.id for t in s.targets)]
-        if x[1] in ("quot", "thr", "exclpaths"):
+        if x[1] in ("quot", "thr", "exclpaths", "enum_items"):
             bad(s, "assignment of a %s" % x[1])
         out = []
         for t in s.targets:
@@ -956,15 +1174,19 @@ class Fn:
                               ast.Import, ast.ImportFrom, ast.Assert, ast.Raise, ast.AsyncFor, ast.AsyncFunctionDef)) \
                     or (isinstance(n, ast.FunctionDef) and n is not self.node):
                 bad(n, "unsupported construct in %s" % self.name)
-        lines = self.block(list(self.node.body), env, (lambda e2, i2: ["  " * i2 + "r"]), 1)
+        def fall(e2, i2):
+            if self.ret is not None:
+                bad(self.node, "%s can fall off its end without returning a value" % self.name)
+            return ["  " * i2 + "r"]
+        lines = self.block(list(self.node.body), env, fall, 1)
         txt = "\n".join(lines)
         for k, v in getattr(self, "rename", {}).items():
             txt = txt.replace(self.var(k), v)
         if self.uses_rec != (self.name in USES_REC):
             bad(self.node, "%s %s the recursive call, unlike the table USES_REC" % (self.name, "uses" if self.uses_rec else "does not use"))
         ps = "".join(" (%s : %s)" % (self.var(n), COQTY[t]) for n, t in self.params)
-        return "(* %s, %s:%d *)\nDefinition g_%s (E : genv) (rec : level -> res)%s : res :=\n%s  let r := nil_res in\n%s.\n" % (
-            self.name, SRC, self.node.lineno, self.name, ps, ENVLETS, txt)
+        return "(* %s, %s:%d *)\nDefinition g_%s (E : genv) (rec : level -> res)%s : %s :=\n%s  let r := nil_res in\n%s.\n" % (
+            self.name, SRC, self.node.lineno, self.name, ps, COQTY[self.ret] if self.ret else "res", ENVLETS, txt)
 
 
 class Translator:
@@ -1047,7 +1269,9 @@ ENVLETS = ("  let hatom := e_hatom E in let udiff := e_udiff E in let ops := e_o
            "  let excl := e_excl E in let has_excl := e_has_excl E in let c := e_c E in\n")
 
 HEADER = """(* GENERATED by /verif/harness/translate/diffdispatch.py from %s (DeepDiff._report_result, _diff_booleans,
-   _diff_numbers, _diff_types, _diff_str, _diff_set, _diff_iterable, _diff_tuple, _diff_dict, _diff) and %s
+   _diff_numbers, _diff_types, _diff_str, _diff_set, _compare_in_order, _get_matching_pairs,
+   _diff_by_forming_pairs_and_comparing_one_by_one, _diff_ordered_iterable_by_difflib, _diff_iterable_in_order,
+   _diff_iterable, _diff_tuple, _diff_dict, _diff) and %s
    (strings, bytes_type, booleans, numbers).  DO NOT EDIT: regenerated from the current source on every run of
    ./check C02 / C03.  Definitions only.  Types and Python-level primitives are those of DD.Diff.DiffSrcPrims;
    none of the comparers of DD.Diff.DiffModel that are re-derived here is used. *)
